@@ -70,9 +70,9 @@ def gen_case(r):
     if r.random() < 0.1:
         seq.append(r.choice(seq))
     script_lib = None
-    if r.random() < 0.15 and nlibs >= 2:
+    if r.random() < 0.3 and nlibs >= 2:
         a, b = r.sample(range(nlibs), 2)
-        script_lib = dict(plain=a, as_needed=b)
+        script_lib = dict(plain=a, as_needed=b, first=r.choice(["plain", "as-needed"]), kw=r.choice(["GROUP", "INPUT"]))
         libs[a]["soname"] = libs[a]["soname"] or f"libL{a}.so"
         libs[b]["soname"] = libs[b]["soname"] or f"libL{b}.so"
         seq = [x for x in seq if x not in (a, b)]
@@ -175,8 +175,10 @@ def build(ctx, case, d):
         case["objpaths"].append(f"m{k}.o")
     if case["script"]:
         a, b = case["script"]["plain"], case["script"]["as_needed"]
-        write(os.path.join(d, "libs", "libscript.so"),
-              f"/* GNU ld script */\nGROUP ( {os.path.join(d, libs[a]['path'])} AS_NEEDED ( {os.path.join(d, libs[b]['path'])} ) )\n")
+        pa, pb = os.path.join(d, libs[a]['path']), f"AS_NEEDED ( {os.path.join(d, libs[b]['path'])} )"
+        kw = case["script"].get("kw", "GROUP")
+        body = f"{pa} {pb}" if case["script"].get("first", "plain") == "plain" else f"{pb} {pa}"
+        write(os.path.join(d, "libs", "libscript.so"), f"/* GNU ld script */\n{kw} ( {body} )\n")
     return True
 
 
@@ -220,8 +222,8 @@ def occurrences(case):
             elif t[1] == "--pop-state":
                 stack.pop()
         elif t[0] == "script":
-            out.append((case["script"]["plain"], stack[-1], "script"))
-            out.append((case["script"]["as_needed"], True, "script-AS_NEEDED"))
+            two = [(case["script"]["plain"], stack[-1], "script"), (case["script"]["as_needed"], True, "script-AS_NEEDED")]
+            out += two if case["script"].get("first", "plain") == "plain" else two[::-1]
         else:
             out.append((t[1], stack[-1], t[2]))
     return out
@@ -310,7 +312,9 @@ def describe(case):
         if t[0] == "opt":
             parts.append(t[1])
         elif t[0] == "script":
-            parts.append(f"script(L{case['script']['plain']} AS_NEEDED(L{case['script']['as_needed']}))")
+            sc = case["script"]
+            parts.append(f"script({sc.get('kw', 'GROUP')}: L{sc['plain']} AS_NEEDED(L{sc['as_needed']}))" if sc.get("first", "plain") == "plain"
+                         else f"script({sc.get('kw', 'GROUP')}: AS_NEEDED(L{sc['as_needed']}) L{sc['plain']})")
         else:
             l = case["libs"][t[1]]
             parts.append(("-lL%d" if t[2] == "-l" else "L%d.so") % t[1] + ("" if l["soname"] else "[nosoname]"))
